@@ -81,11 +81,10 @@ func main() {
 				c.P.norm()
 			} else if *prop == "C02" {
 				c = genC02(r, gidx, *tier)
+			} else if *prop == "C06" {
+				c = genC06(r, gidx, *tier)
 			} else {
 				c = genC01(r, gidx, *tier)
-				if *prop == "C06" {
-					c.Cfg.Cert = true
-				}
 			}
 			runSolve(e, idx, c, *prop == "C06")
 		case "C03":
